@@ -74,7 +74,7 @@ func structBases() (map[string][]int, []int) {
 	return famBases, tlsBases
 }
 
-var structFamilies = []string{"rfc-br-dns", "san-ian", "subject-issuer", "aia", "validity", "name-length", "onion", "rsa-key", "smime-subject", "cdp", "eku-ku"}
+var structFamilies = []string{"rfc-br-dns", "san-ian", "subject-issuer", "aia", "validity", "name-length", "onion", "rsa-key", "smime-subject", "cdp", "eku-ku", "opaque-ext"}
 
 var latestEffective = time.Date(2024, 6, 1, 0, 0, 0, 0, time.UTC) // after every pair member's effective date
 
@@ -314,6 +314,40 @@ func drawStructured(rt *rapid.T, fam string) (structCert, bool) {
 			desc = append(desc, d)
 		}
 		v.SetExt([]int{2, 5, 29, 31}, rapid.IntRange(0, 5).Draw(rt, "critical") == 0, dt.Seq(dps...))
+	case "opaque-ext":
+		// an extension no parser decodes, first or last, whose value is a nest of lengths that lie (gen.LyingNest),
+		// random bytes, an indefinite length, or a deep honest nest
+		var val []byte
+		switch rapid.IntRange(0, 4).Draw(rt, "shape") {
+		case 0, 1:
+			d, lo, sl := rapid.IntRange(0, 16).Draw(rt, "depth"), rapid.IntRange(1, 3).Draw(rt, "lenoctets"), rapid.IntRange(0, 3).Draw(rt, "slack")
+			past := rapid.IntRange(0, d*sl+48).Draw(rt, "past")
+			val = gen.LyingNest(rapid.SampledFrom([]int{40, 130, 300, 70000}).Draw(rt, "total"), d, lo, sl, past)
+			desc = append(desc, fmt.Sprintf("lying-nest depth=%d lenoctets=%d slack=%d past=%d", d, lo, sl, past))
+		case 2:
+			val = rapid.SliceOfN(rapid.Byte(), 0, 64).Draw(rt, "bytes")
+			desc = append(desc, "random-bytes")
+		case 3:
+			val = []byte{0x30, 0x80, 0x04, 0x01, 0x41, 0x00, 0x00}
+			desc = append(desc, "indefinite-length")
+		default:
+			n := dt.Prim(0, 5, nil)
+			for i, d := 0, rapid.IntRange(1, 200).Draw(rt, "honestdepth"); i < d; i++ {
+				n = dt.Seq(n)
+			}
+			val = n.Encode()
+			desc = append(desc, "deep-honest-nest")
+		}
+		ext := dt.Seq(dt.OID(1, 3, 6, 1, 4, 1, 99999, 7, rapid.IntRange(1, 3).Draw(rt, "arc")), dt.Prim(0, 4, val))
+		if rapid.Bool().Draw(rt, "critical") {
+			ext.Children = []*dt.Node{ext.Children[0], dt.Prim(0, 1, []byte{0xff}), ext.Children[1]}
+		}
+		seq := v.EnsureExtensions()
+		if rapid.IntRange(0, 3).Draw(rt, "first") == 0 {
+			seq.Children = append([]*dt.Node{ext}, seq.Children...)
+		} else {
+			seq.Children = append(seq.Children, ext)
+		}
 	case "smime-subject":
 		// a subject that repeats attribute types - several commonNames, several emailAddresses, mailbox and
 		// non-mailbox values in either order - on an S/MIME certificate, and a SAN that names some of them
